@@ -129,7 +129,8 @@ def check(case):
             for i, dd in enumerate(dets):
                 if abs(dd - 1) > 1e-12 * (nstep + 2):
                     local.append(Failure('isochoric', '%s: det Fv of branch %d = 1 %+.3e' % (what, i + 1, dd - 1), **data))
-            if hold_prev is not None and neq_new > hold_prev * (1 + 1e-10) + 1e-14 * pr['stiff'] * 1e-8:
+            # the stored energy G |dev Ee|^2 is recomputed from a log strain with absolute rounding ~eps: error ~ 2 sqrt(E G) * 8 eps
+            if hold_prev is not None and neq_new > hold_prev * (1 + 1e-10) + 1e-14 * pr['stiff'] * 1e-8 + 64 * EPS * math.sqrt(hold_prev * pr['stiff']):
                 local.append(Failure('relaxation', '%s: stored non-equilibrium energy rose from %.12g to %.12g while the deformation was held'
                                      % (what, hold_prev, neq_new), **data))
         if local:
